@@ -7,6 +7,11 @@ from checkcfg import PROPS
 BASELINE = json.load(open('/root/.vp/BASELINE.json'))['cmd'] if os.path.exists('/root/.vp/BASELINE.json') else ''
 
 TEXT = {
+ "C01": dict(
+   technique="stateful property-based testing (rapid state machine): generated chain histories on a simulated node built from real mass-core components, real wallet driven in stepped mode, compared with an independent ledger model (fold over the best chain)",
+   text="Generated histories (new addresses; blocks with coinbase / standard / staking / old+new binding / nulldata outputs, spends of any mature coin, in-block spend chains, transactions paying several wallets; reorganisations of depth 1..8 with every rolled-back transaction re-mined, dropped or double-spent and ONE notification for the new tip, incl. equal-length replacement; un-announced blocks; notifications queued and delivered later, after the chain moved again) run against the real WalletManager/NtfnsHandler (the harness plays the handler's select loop through build-tag hooks). At every quiescent point UseWallet total, WalletBalance (several confs), AddressBalance (all / subsets), GetUtxo (per-address grouping, amount, height, confirmations, spendable flag) and SyncedTo are compared with a ledger recomputed by a plain fold over the node's best chain using the consensus maturity formulas. Two defects found this way were repaired (fix: 8220227, 3292e36) and stay as deterministic regression histories. Exploration: sampled histories, not exhaustive.",
+   note="Trusted: mass-core chain DB / address index / codecs (they are 'the node'), rapid. Consensus parameters are scaled down through mass-core's package variables (profile small: coinbase maturity 4, min frozen period 2, warm-up height 14, binding lock 5) so boundaries fall inside 10-60 block histories. Not generated because the node itself cannot connect such blocks: spends of new-style bindings, spends of a binding inside its creating block. Zero-value outputs to wallet addresses are not generated (the wallet documents skipping them). SpentByUnmined is C09's subject and not compared here.",
+   ref="DESIGN.md §3 C01"),
  "C11": dict(
    technique="stateful property-based testing (rapid state machine) of mwdb+ldb against an in-memory nested-map reference model",
    text="Generated histories of write transactions (nested bucket create/delete to depth 4, put/delete/clear, point/prefix reads, listings; keys with 0x00/0xff runs, '_' separators, depth-prefix and bucket-index look-alikes) ending in commit, error return or rollback, with a concurrent read transaction opened inside the write transaction (isolation), read-only audits after every transaction (point reads, prefix reads, nil/prefix/explicit-range iteration ascending-once, seek) and close/reopen, are executed on the real LevelDB-backed wallet database and on a nested-map model; every observable is compared after every step. Exploration: sampled histories (hundreds quick, thousands thorough), not exhaustive.",
